@@ -21,7 +21,7 @@ pub fn style_count(f: F) -> u32 {
 	match f {
 		F::Json => 4,
 		F::Msgpack => 2,
-		F::Yaml => 6,
+		F::Yaml => 8,
 		F::Toml => 3,
 	}
 }
@@ -606,15 +606,25 @@ pub fn spell_doc(f: F, v: &V, st: Style) -> Option<Vec<u8>> {
 		F::Yaml => {
 			let mut s = String::new();
 			// bit0: flow vs block; styles 4,5: block with base indentation 2 / explicit '---'
-			let ok = if st.bit(0) {
+			// styles 6, 7: a comment and a blank line, then an implicit document indented by 3
+			let st = if st.0 >= 6 { Style(st.0 | 0x100) } else { st };
+			let lead = st.0 & 0x100 != 0;
+			let st = Style(st.0 & 0xff);
+			let ok = if st.bit(0) && !lead {
 				let ok = yaml_flow(&mut s, v, st);
 				s.push('\n');
 				ok
 			} else {
-				let base = if st.0 == 4 { 2 } else { 0 };
+				let base = if lead { 3 } else if st.0 == 4 { 2 } else { 0 };
 				s.push_str(&" ".repeat(base));
-				yaml_block(&mut s, v, base, st)
+				yaml_block(&mut s, v, base, Style(if lead { 0 } else { st.0 }))
 			};
+			if lead {
+				s.insert_str(0, "# leading comment\n\n");
+				if st.0 == 7 && s.ends_with('\n') {
+					s.pop();
+				}
+			}
 			if st.0 == 5 {
 				s.insert_str(0, "---\n");
 			}
